@@ -1,13 +1,16 @@
 (* C15: the INTENDED resolution of a type reference - the compiler's own scoping rule - as a function, and the exact
    class of references on which the data-model view's resolution (DmProps.tuple_parts: what DrawTuple looks up and
-   allocates) agrees with it on every module.
+   allocates) agrees with it on every module.  Second pass of round 3: after the fixes C15-6 (bare lookup) and C15-7
+   (the whole path names the type) that class no longer depends on the path - nested names and names with '.' agree -;
+   what is left are references whose APPLICATION the view reads differently (the context-free reference of an in-place
+   tuple; an application part of one element that the parser did not rescope because it sits inside a collection).
 
    fix_scope  transliterates pkg/parse/parse.go fixTypeRefScope as a function from the written reference to the one
               the compiler keeps (it is applied by postProcess to the references of tuple and table fields, not to the
               elements of their collections, and it is idempotent);
    resolve    the type a reference means: fix_scope, then the application named by the reference or else the
               current one, then the whole path (JoinTypeRefScope);
-   plain_ref  one path element of one chunk, and no application part that could also be a local type name. *)
+   plain_ref  no application part that could also be a local type name (any path). *)
 From Coq Require Import List PeanoNat PArith Bool Lia.
 Import ListNotations.
 Require Import Verif.DataModel.DmShapeTypes Verif.DataModel.DmModel Verif.DataModel.DmCurrent Verif.DataModel.DmProps.
@@ -65,11 +68,11 @@ Definition wf_ref (curr:str) (r:ref) : Prop :=
   good_str curr /\ r_path r <> [] /\ Forall good_str (r_path r) /\ r_ctx r <> [] /\
   match r_parts r with
   | [] => r_app r = None
-  | [a] => r_app r = Some a /\ good_str a /\ (a <> curr -> a ++ hd [] (r_path r) <> curr ++ a)
+  | [a] => r_app r = Some a /\ good_str a /\
+           (a <> curr -> a ++ hd [] (r_path r) <> curr ++ a /\ a ++ join (r_path r) <> curr ++ a)
   | _ => exists a, r_app r = Some a /\ good_str a
   end.
 Definition plain_ref (curr:str) (r:ref) : Prop :=
-  (exists c, r_path r = [[c]]) /\
   match r_parts r with [] => r_ctx r = curr | [a] => a = curr | _ => True end.
 
 (* ---- basic facts *)
@@ -145,27 +148,42 @@ Proof. intros e k. unfold has_type, find_type. cbn [find]. destruct (str_eqb (e_
 
 Lemma fix_scope_plain : forall es curr r, plain_ref curr r -> fix_scope es curr r = r.
 Proof.
-  intros es curr r [[c Hp] Hparts]. unfold fix_scope. destruct (r_parts r) as [|a [|b ps]]; try reflexivity.
-  rewrite Hp. subst a. rewrite str_eqb_refl. reflexivity.
+  intros es curr r Hparts. unfold plain_ref in Hparts. unfold fix_scope. destruct (r_parts r) as [|a [|b ps]]; try reflexivity.
+  destruct (r_path r); [reflexivity|]. subst a. rewrite str_eqb_refl. reflexivity.
 Qed.
 
-(* ---- plain references: the code's resolution is the compiler's, on every module *)
+Lemma no_eps_app : forall a b, no_eps a -> no_eps b -> no_eps (a ++ b).
+Proof. intros a b Ha Hb. unfold no_eps in *. apply Forall_app. split; assumption. Qed.
+Lemma concat_good : forall ps, ps <> [] -> Forall good_str ps -> good_str (concat ps).
+Proof.
+  induction ps as [|p ps IH]; intros Hne Hg; [contradiction|]. inversion Hg as [|? ? [Hp Hn] Hg']; subst. cbn [concat].
+  destruct ps as [|q ps]; [cbn [concat]; rewrite app_nil_r; split; assumption|].
+  destruct (IH ltac:(discriminate) Hg') as [_ Hn']. split; [destruct p; [contradiction|discriminate]|apply no_eps_app; assumption].
+Qed.
+Lemma join_good : forall ps, ps <> [] -> Forall good_str ps -> join ps = concat ps /\ good_str (join ps).
+Proof.
+  intros ps Hne Hg. destruct (concat_good ps Hne Hg) as [Hc Hn]. unfold join.
+  destruct (concat ps) eqn:E; [contradiction|]. split; [reflexivity|split; [discriminate|exact Hn]].
+Qed.
+Lemma join_ne : forall ps, join ps <> [].
+Proof. intro ps. unfold join. destruct (concat ps); discriminate. Qed.
+
+(* ---- plain references: the code's resolution is the compiler's, on every module and for every path *)
 Theorem resolution_agrees_plain : forall es curr r t, wf_ref curr r -> plain_ref curr r -> ref_of t = Some r -> wf_es es ->
   code_target es t = spec_target es curr r.
 Proof.
   intros es curr r t Hwf Hpl Ht Hes. rewrite (code_target_form es t r Ht Hes).
   unfold spec_target, resolve. rewrite (fix_scope_plain es curr r Hpl). destruct (type_map_wf es Hes) as [-> _].
-  destruct Hpl as [[c Hp] Hparts]. destruct Hwf as [Hcurr [_ [Hgood [_ Happ]]]].
+  unfold plain_ref in Hpl. destruct Hwf as [Hcurr [Hpne [Hgood [_ Happ]]]].
   assert (EA : code_app r = ref_app curr r /\ good_str (ref_app curr r)).
   { unfold code_app, ref_app. destruct (r_parts r) as [|a [|b ps]].
-    - rewrite Happ, Hparts. split; [reflexivity|exact Hcurr].
+    - rewrite Happ, Hpl. split; [reflexivity|exact Hcurr].
     - destruct Happ as [-> [Hg _]]. split; [reflexivity|exact Hg].
     - destruct Happ as [a' [-> Hg]]. split; [reflexivity|exact Hg]. }
-  destruct EA as [-> [Hne Hnoeps]]. rewrite Hp in *. inversion Hgood as [|? ? Hc _]; subst.
-  rewrite (join_single [c]) by discriminate. unfold relate_parts.
-  rewrite (has_type_single es c Hes). cbn [negb]. rewrite andb_true_r.
-  destruct (has_type es (ref_app curr r ++ [c])); cbn [negb option_map]; [|reflexivity].
-  rewrite sym_key_pair; [reflexivity|exact Hne|apply is_empty_str_good; split; assumption|apply is_empty_str_good; exact Hc].
+  destruct EA as [-> Hg]. destruct (join_good _ Hpne Hgood) as [_ Gj].
+  unfold relate_parts. rewrite (is_empty_str_good _ Hg). cbn [negb orb]. rewrite andb_true_r.
+  destruct (has_type es (ref_app curr r ++ join (r_path r))); cbn [negb option_map]; [|reflexivity].
+  rewrite sym_key_pair; [reflexivity|apply Hg|apply is_empty_str_good; exact Hg|apply is_empty_str_good; exact Gj].
 Qed.
 
 (* ---- every other reference: a module on which the two differ *)
@@ -173,112 +191,102 @@ Definition tup (a n:str) : entity := {| e_app := a; e_name := n; e_def := DTuple
 Lemma wf_tup1 : forall a n, a <> [] -> n <> [] -> wf_es [tup a n].
 Proof. intros a n Ha Hn e [<-|[]]. cbn. repeat split; try assumption. discriminate. Qed.
 
-Lemma spec_none_short : forall es curr r, wf_ref curr r -> wf_es es ->
-  (forall e, In e es -> length (e_key e) <= length (concat (r_path r))) -> spec_target es curr r = None.
-Proof.
-  intros es curr r Hwf Hes Hlen. unfold spec_target. destruct (type_map_wf es Hes) as [-> _].
-  destruct (has_type es (resolve es curr r)) eqn:E; [|reflexivity].
-  apply has_type_length in E. destruct E as [e [Hin Hk]]. pose proof (Hlen e Hin) as L. rewrite Hk in L.
-  pose proof (resolve_longer es curr r Hwf). lia.
-Qed.
-
 Lemma good_ne : forall s, good_str s -> s <> [].
 Proof. intros s [H _]. exact H. Qed.
-
-(* a path of several elements: DrawTuple reads path[0] as the application and path[1] as the type *)
-Lemma differs_nested : forall curr r t p0 p1 rest, wf_ref curr r -> ref_of t = Some r -> r_path r = p0 :: p1 :: rest ->
-  exists es, wf_es es /\ code_target es t <> spec_target es curr r.
+Lemma str_eqb_longer : forall (c s:str), c <> [] -> str_eqb (c ++ s) s = false.
 Proof.
-  intros curr r t p0 p1 rest Hwf Ht Hp. pose proof Hwf as [_ [_ [Hgood _]]]. rewrite Hp in Hgood.
-  inversion Hgood as [|? ? G0 Hg']; subst. inversion Hg' as [|? ? G1 _]; subst.
-  exists [tup p0 p1]. assert (W : wf_es [tup p0 p1]) by (apply wf_tup1; apply good_ne; assumption). split; [exact W|].
-  rewrite (code_target_form _ t r Ht W). rewrite (spec_none_short _ curr r Hwf W).
-  - rewrite Hp. unfold relate_parts. rewrite has_type_one. unfold tup, e_key. cbn [e_app e_name]. rewrite str_eqb_refl. cbn. discriminate.
-  - intros e [<-|[]]. rewrite Hp. unfold tup, e_key. cbn [e_app e_name concat]. rewrite !app_length. lia.
-Qed.
-
-(* one element with a '.' inside (written with %2E): the bare lookup Types[typeName] can hit an App.Type key *)
-Lemma differs_dotted : forall curr r t x y l, wf_ref curr r -> ref_of t = Some r -> r_path r = [x :: y :: l] ->
-  exists es, wf_es es /\ code_target es t <> spec_target es curr r.
-Proof.
-  intros curr r t x y l Hwf Ht Hp.
-  exists [tup [x] (y :: l)]. assert (W : wf_es [tup [x] (y :: l)]) by (apply wf_tup1; discriminate). split; [exact W|].
-  rewrite (code_target_form _ t r Ht W). rewrite (spec_none_short _ curr r Hwf W).
-  - rewrite Hp. unfold relate_parts. rewrite !has_type_one. unfold tup, e_key. cbn [e_app e_name app].
-    rewrite (str_eqb_refl (x :: y :: l)). cbn [negb]. rewrite andb_false_r. cbn. discriminate.
-  - intros e [<-|[]]. rewrite Hp. unfold tup, e_key. cbn [e_app e_name concat app]. rewrite app_nil_r. cbn. lia.
+  intros c s Hc. apply str_eqb_neq. intros E. apply (f_equal (@length atom)) in E. rewrite app_length in E.
+  destruct c; [contradiction|cbn in E; lia].
 Qed.
 
 (* a local reference whose context is not the current application (the context-free reference of an in-place tuple) *)
-Lemma differs_ctx : forall curr r t c, wf_ref curr r -> ref_of t = Some r -> r_path r = [[c]] -> r_parts r = [] -> r_ctx r <> curr ->
+Lemma differs_ctx : forall curr r t, wf_ref curr r -> ref_of t = Some r -> r_parts r = [] -> r_ctx r <> curr ->
   exists es, wf_es es /\ code_target es t <> spec_target es curr r.
 Proof.
-  intros curr r t c Hwf Ht Hp Hparts Hctx. pose proof Hwf as [[Hc _] [_ [_ [Hcx Happ]]]]. rewrite Hparts in Happ.
-  exists [tup curr [c]]. assert (W : wf_es [tup curr [c]]) by (apply wf_tup1; [exact Hc|discriminate]). split; [exact W|].
+  intros curr r t Hwf Ht Hparts Hctx. pose proof Hwf as [[Hc _] [_ [_ [Hcx Happ]]]]. rewrite Hparts in Happ.
+  set (jp := join (r_path r)).
+  exists [tup curr jp]. assert (W : wf_es [tup curr jp]) by (apply wf_tup1; [exact Hc|apply join_ne]). split; [exact W|].
   rewrite (code_target_form _ t r Ht W). unfold spec_target, resolve, fix_scope. rewrite Hparts. cbn beta iota zeta. destruct (type_map_wf _ W) as [-> _].
-  unfold ref_app, code_app. rewrite Happ, Hp. rewrite (join_single [c]) by discriminate.
-  rewrite !has_type_one. unfold relate_parts. rewrite !has_type_one. unfold tup, e_key. cbn [e_app e_name].
-  rewrite str_eqb_refl. rewrite (str_eqb_neq (curr ++ [c]) (r_ctx r ++ [c])) by (intros E; apply app_inv_tail in E; apply Hctx; symmetry; exact E).
-  rewrite (str_eqb_neq (curr ++ [c]) [c]) by (intros E; destruct curr as [|z [|z' curr]]; [contradiction|discriminate|discriminate]).
-  cbn. discriminate.
+  unfold ref_app, code_app. rewrite Happ. fold jp.
+  rewrite !has_type_one. unfold relate_parts. fold jp. rewrite !has_type_one. unfold tup, e_key. cbn [e_app e_name].
+  rewrite str_eqb_refl. rewrite (str_eqb_neq (curr ++ jp) (r_ctx r ++ jp)) by (intros E; apply app_inv_tail in E; apply Hctx; symmetry; exact E).
+  rewrite (str_eqb_longer curr jp Hc). cbn [negb]. rewrite orb_true_r. cbn. discriminate.
 Qed.
 
 (* an application part of one element that is not the current application: by the compiler's rule it is an
-   application (A.B) or a local type with a nested type (deep reference), depending on the module *)
-Lemma differs_one_part : forall curr r t c a, wf_ref curr r -> ref_of t = Some r -> r_path r = [[c]] -> r_parts r = [a] -> a <> curr ->
+   application (A.B) or a local type with a nested type (deep reference), depending on the module; the parser rescopes
+   direct references, not the elements of collections *)
+Lemma differs_one_part : forall curr r t a, wf_ref curr r -> ref_of t = Some r -> r_parts r = [a] -> a <> curr ->
   exists es, wf_es es /\ code_target es t <> spec_target es curr r.
 Proof.
-  intros curr r t c a Hwf Ht Hp Hparts Hne. pose proof Hwf as [[Hc _] [_ [_ [_ Happ]]]]. rewrite Hparts, Hp in Happ.
-  destruct Happ as [Ha [[Hane _] Hov]]. specialize (Hov Hne). cbn [hd] in Hov.
-  set (es := [tup curr a; tup curr (a ++ [c])]).
+  intros curr r t a Hwf Ht Hparts Hne. pose proof Hwf as [[Hc _] [Hpne [Hgood [_ Happ]]]]. rewrite Hparts in Happ.
+  destruct Happ as [Ha [Hga Hov]]. destruct (Hov Hne) as [Hov1 Hov2]. pose proof Hga as [Hane _].
+  destruct (join_good _ Hpne Hgood) as [Jc Gj]. set (jp := join (r_path r)) in *.
+  destruct (r_path r) as [|p0 rest] eqn:Hp; [contradiction|]. cbn [hd] in Hov1.
+  set (es := [tup curr a; tup curr (a ++ jp)]).
   assert (W : wf_es es). { intros e [<-|[<-|[]]]; cbn; repeat split; try assumption; try discriminate. destruct a; [contradiction|discriminate]. }
   exists es. split; [exact W|]. rewrite (code_target_form _ t r Ht W).
-  assert (K1 : has_type es (a ++ [c]) = false).
-  { destruct (has_type es (a ++ [c])) eqn:E; [|reflexivity]. apply has_type_length in E. destruct E as [e [[<-|[<-|[]]] Hk]]; unfold tup, e_key in Hk; cbn [e_app e_name] in Hk.
-    - exfalso. apply Hov. symmetry. exact Hk.
-    - exfalso. apply (f_equal (@length atom)) in Hk. rewrite !app_length in Hk. destruct curr; [contradiction|cbn in Hk; lia]. }
+  assert (Lp : length jp >= length p0). { rewrite Jc. cbn [concat]. rewrite app_length. lia. }
+  assert (Lc : length curr > 0) by (destruct curr; [contradiction|cbn; lia]).
+  assert (K1 : has_type es (a ++ p0) = false).
+  { destruct (has_type es (a ++ p0)) eqn:E; [|reflexivity]. apply has_type_length in E. destruct E as [e [[<-|[<-|[]]] Hk]]; unfold tup, e_key in Hk; cbn [e_app e_name] in Hk.
+    - exfalso. apply Hov1. symmetry. exact Hk.
+    - exfalso. apply (f_equal (@length atom)) in Hk. rewrite !app_length in Hk. lia. }
+  assert (K1' : has_type es (a ++ jp) = false).
+  { destruct (has_type es (a ++ jp)) eqn:E; [|reflexivity]. apply has_type_length in E. destruct E as [e [[<-|[<-|[]]] Hk]]; unfold tup, e_key in Hk; cbn [e_app e_name] in Hk.
+    - exfalso. apply Hov2. symmetry. exact Hk.
+    - exfalso. apply (f_equal (@length atom)) in Hk. rewrite !app_length in Hk. lia. }
   assert (K2 : has_type es (curr ++ a) = true) by (apply (has_type_in es (tup curr a)); left; reflexivity).
-  assert (K3 : has_type es (curr ++ a ++ [c]) = true) by (apply (has_type_in es (tup curr (a ++ [c]))); right; left; reflexivity).
+  assert (K3 : has_type es (curr ++ a ++ jp) = true) by (apply (has_type_in es (tup curr (a ++ jp))); right; left; reflexivity).
   unfold spec_target, resolve, fix_scope. rewrite Hparts, Hp. rewrite (str_eqb_neq curr a) by (intros E; apply Hne; symmetry; exact E).
   rewrite !has_ent_has_type, K1, K2. cbn [r_app r_path ref_app]. destruct (type_map_wf _ W) as [-> _].
-  assert (J : join [a; [c]] = a ++ [c]). { unfold join. cbn [concat]. rewrite app_nil_r. destruct a; [contradiction|reflexivity]. }
-  rewrite J, K3. unfold code_app. rewrite Ha. unfold relate_parts. rewrite K1, (has_type_single es c W). cbn. discriminate.
+  assert (J : join (a :: p0 :: rest) = a ++ jp).
+  { destruct (join_good (a :: p0 :: rest) ltac:(discriminate) (Forall_cons _ Hga Hgood)) as [J' _]. rewrite J'. cbn [concat]. rewrite Jc. reflexivity. }
+  rewrite J, K3. unfold code_app. rewrite Ha. unfold relate_parts. fold jp. rewrite K1'. rewrite (is_empty_str_good a Hga). cbn. discriminate.
 Qed.
 
 (* ---- the characterisation: the code resolves a reference as the compiler does ON EVERY MODULE exactly when the
-   reference is plain.  The four lemmas above are the four classes of the remaining references. *)
+   reference is plain.  The two lemmas above are the two classes of the remaining references (before the fixes C15-6
+   and C15-7 there were four: nested paths and names with '.' are now resolved as the compiler resolves them). *)
 Theorem resolution_agrees_iff : forall curr r t, wf_ref curr r -> ref_of t = Some r ->
   ((forall es, wf_es es -> code_target es t = spec_target es curr r) <-> plain_ref curr r).
 Proof.
   intros curr r t Hwf Ht. split.
-  - intros H. pose proof Hwf as [_ [Hpne [Hgood _]]].
+  - intros H.
     assert (X : forall es, wf_es es -> code_target es t <> spec_target es curr r -> False) by (intros es W N; apply N; apply H; exact W).
-    destruct (r_path r) as [|p0 [|p1 rest]] eqn:Hp; [contradiction| |].
-    + destruct p0 as [|x [|y l]].
-      * inversion Hgood as [|? ? [G _] _]; subst. contradiction.
-      * unfold plain_ref. rewrite Hp. split; [exists x; reflexivity|].
-        destruct (r_parts r) as [|a [|b ps]] eqn:Hparts; [| |exact I].
-        -- destruct (str_eqb (r_ctx r) curr) eqn:E; [apply str_eqb_eq in E; exact E|].
-           exfalso. destruct (differs_ctx curr r t x Hwf Ht Hp Hparts) as [es [W N]]; [intros EE; rewrite EE, str_eqb_refl in E; discriminate|]. exact (X es W N).
-        -- destruct (str_eqb a curr) eqn:E; [apply str_eqb_eq in E; exact E|].
-           exfalso. destruct (differs_one_part curr r t x a Hwf Ht Hp Hparts) as [es [W N]]; [intros EE; rewrite EE, str_eqb_refl in E; discriminate|]. exact (X es W N).
-      * exfalso. destruct (differs_dotted curr r t x y l Hwf Ht Hp) as [es [W N]]. exact (X es W N).
-    + exfalso. destruct (differs_nested curr r t p0 p1 rest Hwf Ht Hp) as [es [W N]]. exact (X es W N).
+    unfold plain_ref. destruct (r_parts r) as [|a [|b ps]] eqn:Hparts; [| |exact I].
+    + destruct (str_eqb (r_ctx r) curr) eqn:E; [apply str_eqb_eq in E; exact E|].
+      exfalso. destruct (differs_ctx curr r t Hwf Ht Hparts) as [es [W N]]; [intros EE; rewrite EE, str_eqb_refl in E; discriminate|]. exact (X es W N).
+    + destruct (str_eqb a curr) eqn:E; [apply str_eqb_eq in E; exact E|].
+      exfalso. destruct (differs_one_part curr r t a Hwf Ht Hparts) as [es [W N]]; [intros EE; rewrite EE, str_eqb_refl in E; discriminate|]. exact (X es W N).
   - intros Hpl es W. apply resolution_agrees_plain; assumption.
 Qed.
 
-(* non-vacuity: a plain reference and a module on which it resolves to a declared type; the three other shapes *)
+(* non-vacuity: plain references - one element, a nested name, a name with '.' - and modules on which they resolve to
+   a declared type; a cross-application reference is well-formed and not plain *)
 Definition ex_plain : ref := {| r_ctx := [2%positive]; r_app := None; r_parts := []; r_path := [[5%positive]] |}.
+Definition ex_plain_nested : ref := {| r_ctx := [2%positive]; r_app := None; r_parts := []; r_path := [[5%positive]; [6%positive; 7%positive]] |}.
+Lemma good1 : forall x:positive, x <> eps -> good_str [x].
+Proof. intros x Hx; split; [discriminate|repeat constructor; exact Hx]. Qed.
 Example ex_plain_ok : wf_ref [2%positive] ex_plain /\ plain_ref [2%positive] ex_plain /\
   wf_es [tup [2%positive] [5%positive]] /\
   code_target [tup [2%positive] [5%positive]] (FSet (ERef ex_plain)) = Some [2%positive; 5%positive] /\
   spec_target [tup [2%positive] [5%positive]] [2%positive] ex_plain = Some [2%positive; 5%positive].
 Proof.
-  assert (G : forall x:positive, x <> eps -> good_str [x]) by (intros x Hx; split; [discriminate|repeat constructor; exact Hx]).
   split; [|split; [|split; [|split]]].
   - unfold wf_ref, ex_plain. cbn. repeat split; try discriminate; repeat constructor; try discriminate.
-  - unfold plain_ref, ex_plain. cbn. split; [exists 5%positive; reflexivity|reflexivity].
+  - reflexivity.
   - apply wf_tup1; discriminate.
+  - reflexivity.
+  - reflexivity.
+Qed.
+Example ex_plain_nested_ok : wf_ref [2%positive] ex_plain_nested /\ plain_ref [2%positive] ex_plain_nested /\
+  code_target [tup [2%positive] [5%positive; 6%positive; 7%positive]] (FRef ex_plain_nested) = Some [2%positive; 5%positive; 6%positive; 7%positive] /\
+  spec_target [tup [2%positive] [5%positive; 6%positive; 7%positive]] [2%positive] ex_plain_nested = Some [2%positive; 5%positive; 6%positive; 7%positive].
+Proof.
+  split; [|split; [|split]].
+  - unfold wf_ref, ex_plain_nested. cbn. repeat split; try discriminate; repeat constructor; try discriminate.
+  - reflexivity.
   - reflexivity.
   - reflexivity.
 Qed.
@@ -287,5 +295,5 @@ Example ex_cross_wf : wf_ref [2%positive] ex_cross /\ ~ plain_ref [2%positive] e
 Proof.
   split.
   - unfold wf_ref, ex_cross. cbn. repeat split; try discriminate; repeat constructor; try discriminate.
-  - intros [_ H]. cbn in H. discriminate.
+  - intros H. cbn in H. discriminate.
 Qed.
